@@ -126,6 +126,8 @@ def homogeneity(e: ast.expr, env: Dict[str, object], defs: Dict[str, ast.expr], 
             return env[e.id]
         if e.id in defs and depth < 6:
             return homogeneity(defs[e.id], env, defs, depth + 1)
+        if e.id in ("TOL", "VSMALL", "VBIG", "pi"):
+            return 0
         raise _Unknown(e.id)
     if isinstance(e, ast.Attribute):
         if e.attr in ("pi", "TOL", "VSMALL", "VBIG"):
@@ -222,4 +224,78 @@ def scale_free_comparison_rule(repo: Repo, prop: str, rule_id: str, functions, a
             )
             k += 1
     r.require(n >= floor, f"only {n} deciding comparisons found")
+    return r
+
+
+def perpendicular_guards_rule(repo: Repo, prop: str, rule_id: str, module_prefixes=("construct.",), floor: int = 3) -> RuleRun:
+    """'radius vectors not perpendicular to the axis [are rejected] in either direction' - for a shape of any size: the guards that
+    raise '... not perpendicular' compare a cosine-like quantity. The homogeneity degree of both sides is followed through the
+    constructor (parameters of point / vector type have degree 1, normalised vectors 0, products add): a dot product of two
+    un-normalised vectors (degree 2) against the plain tolerance accepts a millimetre-sized cylinder whose radius leans 27 degrees
+    and refuses a kilometre-sized one for rounding noise."""
+    from .model import AnalysisError
+
+    r = RuleRun(prop, rule_id, floor=floor, what="perpendicularity guards scale consistently with the shape: a cosine (degree 0) or a length (degree 1, one vector normalised) against the tolerance - not the dot product of two un-normalised vectors")
+    n = 0
+    for fn in sorted(repo.all_functions(), key=lambda f_: f_.qualname):
+        short = fn.module.name[len("classy_blocks.") :] if fn.module.name.startswith("classy_blocks.") else fn.module.name
+        if not any(short.startswith(p) for p in module_prefixes):
+            continue
+        guards = [
+            st
+            for st in ast.walk(fn.node)
+            if isinstance(st, ast.If) and any(isinstance(b, ast.Raise) and "perpendicular" in ast.unparse(b).lower() for b in st.body)
+        ]
+        if not guards:
+            continue
+        env: Dict[str, object] = {}
+        for a in fn.node.args.args:
+            ann = ast.unparse(a.annotation) if a.annotation is not None else ""
+            if any(t in ann for t in ("PointType", "VectorType")):
+                env[a.arg] = 1
+            elif ann == "float" and any(k in a.arg for k in ("radius", "length", "size", "width", "height", "thickness")):
+                env[a.arg] = 1
+            elif ann in ("float", "int"):
+                env[a.arg] = 0
+
+        def bind(st: ast.stmt):
+            if isinstance(st, ast.Assign) and len(st.targets) == 1 and isinstance(st.targets[0], ast.Name):
+                try:
+                    env[st.targets[0].id] = homogeneity(st.value, env, {})
+                except (_Unknown, Inhomogeneous):
+                    env.pop(st.targets[0].id, None)
+
+        def visit(body):
+            nonlocal n
+            for st in body:
+                if st in guards:
+                    k = 0
+                    for node in ast.walk(st.test):
+                        if isinstance(node, ast.Compare) and len(node.ops) == 1 and isinstance(node.ops[0], (ast.Lt, ast.LtE, ast.Gt, ast.GtE)):
+                            try:
+                                a_, b_ = homogeneity(node.left, env, {}), homogeneity(node.comparators[0], env, {})
+                            except (_Unknown, Inhomogeneous) as err:
+                                raise AnalysisError(f"{fn.qualname}: scaling degree of the perpendicularity guard '{ast.unparse(node)[:70]}' not determined ({err})") from err
+                            n += 1
+                            diff = None if a_ is None or b_ is None else a_ - b_
+                            r.check(
+                                diff is None or diff in (0, 1),
+                                fn,
+                                f"'{ast.unparse(node)[:50]}': degrees {a_} vs {b_}",
+                                f"{fn.qualname}: the perpendicularity guard '{ast.unparse(node)[:70]}' compares a quantity that scales with the shape's size to the power {a_} against one of power {b_} "
+                                "(the dot product of two un-normalised vectors against the plain tolerance): a millimetre-sized shape whose radius vector leans by tens of degrees is accepted and built distorted - "
+                                "Cylinder([0,0,0],[1e-4,0,0],[5e-4,1e-3,0]) - and a very large one is refused for rounding noise; the precondition is not enforced for every size",
+                                node,
+                                key=f"guard#{k}",
+                            )
+                            k += 1
+                    continue
+                bind(st)
+                for sub in ("body", "orelse"):
+                    inner = getattr(st, sub, None)
+                    if isinstance(inner, list) and inner and isinstance(inner[0], ast.stmt) and not isinstance(st, (ast.FunctionDef, ast.ClassDef)):
+                        visit(inner)
+
+        visit(fn.node.body)
+    r.require(n >= floor, f"only {n} perpendicularity guards found")
     return r
